@@ -270,6 +270,238 @@ Definition unmarshal_xml (j0 : jid) (cd : bytes) : jid * jerr :=
 
 End WithExt.
 
+(* ---- the same functions over a heap of backing arrays --------------------
+
+   Go's JID holds a slice: Bare, Domain, Copy, WithResource("") and plain
+   assignment share the backing array between values, and append writes IN
+   PLACE when the capacity suffices.  The value-level model above is adequate
+   only if no call ever writes into an array an earlier value can see.  This
+   layer makes that explicit: a heap is a list of arrays (each as long as its
+   capacity), a slice is {array, offset, len, cap}, and every function is a
+   state transition on the heap that follows the Go statements (make, copy,
+   append, reslice).  [slack n] is the extra capacity the runtime (or
+   precis' Append) gives a reallocated array of n bytes: any function. *)
+
+Record slice := mksl { s_arr : nat; s_off : nat; s_len : nat; s_cap : nat }.
+Definition heap := list bytes.
+Definition nil_slice : slice := mksl 0 0 0 0.
+
+Definition arr_get (h : heap) (a : nat) : bytes := nth a h [].
+
+Definition sl_read (h : heap) (s : slice) : bytes :=
+  firstn (s_len s) (skipn (s_off s) (arr_get h (s_arr s))).
+
+Fixpoint upd {A} (l : list A) (i : nat) (x : A) : list A :=
+  match l, i with
+  | [], _ => []
+  | _ :: r, 0 => x :: r
+  | y :: r, S i' => y :: upd r i' x
+  end.
+
+(* a[pos : pos+len(xs)] = xs *)
+Definition write_at (a : bytes) (pos : nat) (xs : bytes) : bytes :=
+  firstn pos a ++ xs ++ skipn (pos + length xs) a.
+
+Definition zeros (n : nat) : bytes := repeat x00 n.
+
+(* make([]byte, n, c) *)
+Definition sl_make (h : heap) (n c : nat) : heap * slice :=
+  (h ++ [zeros c], mksl (length h) 0 n c).
+
+(* s[a:b] *)
+Definition sl_sub (s : slice) (a b : nat) : slice :=
+  mksl (s_arr s) (s_off s + a) (b - a) (s_cap s - a).
+
+(* copy(dst, src) *)
+Definition sl_copy (h : heap) (dst : slice) (src : bytes) : heap :=
+  upd h (s_arr dst) (write_at (arr_get h (s_arr dst)) (s_off dst) (firstn (s_len dst) src)).
+
+(* append(s, xs...), also the contract of precis' Append(dst, src): written in
+   place when it fits in the capacity, otherwise a new array *)
+Definition sl_append (slack : nat -> nat) (h : heap) (s : slice) (xs : bytes) : heap * slice :=
+  let n := s_len s + length xs in
+  if n <=? s_cap s
+  then (upd h (s_arr s) (write_at (arr_get h (s_arr s)) (s_off s + s_len s) xs),
+        mksl (s_arr s) (s_off s) n (s_cap s))
+  else (h ++ [sl_read h s ++ xs ++ zeros (slack n)], mksl (length h) 0 n (n + slack n)).
+
+Record hjid := mkh { h_data : slice; h_ll : nat; h_dl : nat }.
+Definition hzero : hjid := mkh nil_slice 0 0.
+
+(* the value a heap JID denotes *)
+Definition view (h : heap) (j : hjid) : jid := mkjid (sl_read h (h_data j)) (h_ll j) (h_dl j).
+
+Definition h_bare (j : hjid) : hjid :=
+  mkh (sl_sub (h_data j) 0 (h_dl j + h_ll j)) (h_ll j) (h_dl j).
+Definition h_domain (j : hjid) : hjid :=
+  mkh (sl_sub (h_data j) (h_ll j) (h_dl j + h_ll j)) 0 (h_dl j).
+
+Section WithHeap.
+Variable X : ext.
+Variable slack : nat -> nat.
+
+Definition h_new (h : heap) (l d r : bytes) : heap * (hjid * jerr) :=
+  if negb (utf8_valid l) || negb (utf8_valid r) then (h, (hzero, EUtf8))
+  else match normalize_domain X d with
+  | Er e => (h, (hzero, e))
+  | Ok d' =>
+    let '(h0, data) := sl_make h 0 (length l + length d' + length r) in
+    match norm_part (x_user X) l with
+    | None => (h0, (hzero, EPrecis))
+    | Some l' =>
+      let '(h1, data1) := sl_append slack h0 data l' in
+      let '(h2, data2) := sl_append slack h1 data1 d' in
+      match norm_part (x_opaque X) r with
+      | None => (h2, (hzero, EPrecis))
+      | Some r' =>
+        let '(h3, data3) := sl_append slack h2 data2 r' in
+        match local_checks l' with
+        | ENone =>
+            match resource_checks r' with
+            | ENone => (h3, (mkh data3 (length l') (length d'), ENone))
+            | e => (h3, (hzero, e))
+            end
+        | e => (h3, (hzero, e))
+        end
+      end
+    end
+  end.
+
+Definition h_parse (h : heap) (s : bytes) : heap * (hjid * jerr) :=
+  match split_string true s with
+  | ((l, d, r), ENone) => h_new h l d r
+  | (_, e) => (h, (hzero, e))
+  end.
+
+Definition h_new_unsafe (h : heap) (l d r : bytes) : heap * hjid :=
+  let '(h0, data) := sl_make h 0 (length l + length d + length r) in
+  let '(h1, data1) := sl_append slack h0 data l in
+  let '(h2, data2) := sl_append slack h1 data1 d in
+  let '(h3, data3) := sl_append slack h2 data2 r in
+  (h3, mkh data3 (length l) (length d)).
+
+Definition h_with_local (h : heap) (j : hjid) (l : bytes) : heap * (hjid * jerr) :=
+  let tail := sl_sub (h_data j) (h_ll j) (s_len (h_data j)) in
+  let '(h0, data) := sl_make h 0 (length l + s_len tail) in
+  if is_nil l then
+    let '(h1, data1) := sl_append slack h0 data (sl_read h0 tail) in
+    (h1, (mkh data1 0 (h_dl j), ENone))
+  else if (h_dl j =? 0) then (h0, (j, EDomainLen))
+  else if negb (utf8_valid l) then (h0, (j, EUtf8))
+  else match x_user X l with
+       | None => (h0, (j, EPrecis))
+       | Some l' =>
+           let '(h1, data1) := sl_append slack h0 data l' in
+           let '(h2, data2) := sl_append slack h1 data1 (sl_read h1 tail) in
+           (h2, (mkh data2 (length l') (h_dl j), local_checks l'))
+       end.
+
+Definition h_with_domain (h : heap) (j : hjid) (d : bytes) : heap * (hjid * jerr) :=
+  match normalize_domain X d with
+  | Er e => (h, (j, e))
+  | Ok d' =>
+    let dj := h_data j in
+    let '(h0, data) := sl_make h 0 (s_len dj - h_dl j + length d') in
+    let '(h1, data1) := sl_append slack h0 data (sl_read h0 (sl_sub dj 0 (h_ll j))) in
+    let '(h2, data2) := sl_append slack h1 data1 d' in
+    let '(h3, data3) := sl_append slack h2 data2 (sl_read h2 (sl_sub dj (h_ll j + h_dl j) (s_len dj))) in
+    (h3, (mkh data3 (h_ll j) (length d'), ENone))
+  end.
+
+Definition h_with_resource (h : heap) (j : hjid) (r : bytes) : heap * (hjid * jerr) :=
+  let b := h_bare j in
+  let '(h0, data) := sl_make h (s_len (h_data b)) (s_len (h_data b) + length r) in
+  let h1 := sl_copy h0 data (sl_read h0 (h_data b)) in
+  if is_nil r then (h1, (b, ENone))
+  else if (h_dl j =? 0) then (h1, (hzero, EDomainLen))
+  else if negb (utf8_valid r) then (h1, (hzero, EUtf8))
+  else match x_opaque X r with
+       | None => (h1, (hzero, EPrecis))
+       | Some r' =>
+           let '(h2, data2) := sl_append slack h1 data r' in
+           (h2, (mkh data2 (h_ll j) (h_dl j), resource_checks r'))
+       end.
+
+(* UnmarshalXMLAttr / UnmarshalXML on a variable holding j0: the new contents
+   of the variable *)
+Definition h_unmarshal_attr (h : heap) (j0 : hjid) (v : bytes) : heap * (hjid * jerr) :=
+  if is_nil v then (h, (hzero, ENone)) else h_parse h v.
+
+Definition h_unmarshal_xml (h : heap) (j0 : hjid) (cd : bytes) : heap * (hjid * jerr) :=
+  match h_parse h cd with
+  | (h', (j, ENone)) => (h', (j, ENone))
+  | (h', (_, e)) => (h', (j0, e))
+  end.
+
+(* ---- histories: programs over registers holding JID values.  Every call
+   puts its result in a new register; earlier registers are the values the
+   caller still holds. ---- *)
+
+Inductive hop :=
+| HNew (l d r : bytes) | HParse (s : bytes) | HUnsafe (l d r : bytes)
+| HBare (i : nat) | HDomain (i : nat) | HCopy (i : nat)
+| HWithL (i : nat) (x : bytes) | HWithD (i : nat) (x : bytes) | HWithR (i : nat) (x : bytes)
+| HAttr (i : nat) (v : bytes) | HElem (i : nat) (cd : bytes).
+
+Record hstate := mkst { st_heap : heap; st_regs : list hjid; st_errs : list jerr }.
+Definition st0 : hstate := mkst [] [] [].
+
+Definition hreg (st : hstate) (i : nat) : hjid := nth i (st_regs st) hzero.
+
+Definition h_call (st : hstate) (o : hop) : heap * (hjid * jerr) :=
+  let h := st_heap st in
+  match o with
+  | HNew l d r => h_new h l d r
+  | HParse s => h_parse h s
+  | HUnsafe l d r => let '(h', j) := h_new_unsafe h l d r in (h', (j, ENone))
+  | HBare i => (h, (h_bare (hreg st i), ENone))
+  | HDomain i => (h, (h_domain (hreg st i), ENone))
+  | HCopy i => (h, (hreg st i, ENone))
+  | HWithL i x => h_with_local h (hreg st i) x
+  | HWithD i x => h_with_domain h (hreg st i) x
+  | HWithR i x => h_with_resource h (hreg st i) x
+  | HAttr i v => h_unmarshal_attr h (hreg st i) v
+  | HElem i cd => h_unmarshal_xml h (hreg st i) cd
+  end.
+
+Definition h_step (st : hstate) (o : hop) : hstate :=
+  let '(h', (j, e)) := h_call st o in
+  mkst h' (st_regs st ++ [j]) (st_errs st ++ [e]).
+
+Definition h_run (st : hstate) (prog : list hop) : hstate := fold_left h_step prog st.
+
+(* the same program over plain values *)
+Definition vreg (vs : list jid) (i : nat) : jid := nth i vs zero.
+
+Definition res_pair (r : res jid) : jid * jerr :=
+  match r with Ok j => (j, ENone) | Er e => (zero, e) end.
+
+Definition v_call (vs : list jid) (o : hop) : jid * jerr :=
+  match o with
+  | HNew l d r => res_pair (new X l d r)
+  | HParse s => res_pair (parse X s)
+  | HUnsafe l d r => (new_unsafe l d r, ENone)
+  | HBare i => (bare (vreg vs i), ENone)
+  | HDomain i => (domain (vreg vs i), ENone)
+  | HCopy i => (vreg vs i, ENone)
+  | HWithL i x => with_local X (vreg vs i) x
+  | HWithD i x => with_domain X (vreg vs i) x
+  | HWithR i x => with_resource X (vreg vs i) x
+  | HAttr i v => unmarshal_attr X (vreg vs i) v
+  | HElem i cd => unmarshal_xml X (vreg vs i) cd
+  end.
+
+Definition v_step (s : list jid * list jerr) (o : hop) : list jid * list jerr :=
+  let '(j, e) := v_call (fst s) o in (fst s ++ [j], snd s ++ [e]).
+
+Definition v_run (s : list jid * list jerr) (prog : list hop) : list jid * list jerr :=
+  fold_left v_step prog s.
+
+(* the values all registers denote now *)
+Definition views (st : hstate) : list jid := map (view (st_heap st)) (st_regs st).
+
+End WithHeap.
+
 (* ---- correspondence records (harness-written case files) ---- *)
 
 Record tables := mktab {
@@ -328,6 +560,9 @@ Inductive case :=
 | CAttr (t : tables) (jl jd jr : bytes) (v : bytes) (o : pobs)
 | CElem (t : tables) (jl jd jr : bytes) (cd : bytes) (o : pobs)
 | CUnsafe (s : bytes) (o : pobs) (ostr : bytes)
+(* a history of calls; o = what every register reads AFTER the last call
+   (three parts) with the error kind its call returned *)
+| CHist (t : tables) (prog : list hop) (o : list pobs)
 (* one recorded instance of each hypothesis about the external functions *)
 | CHypUser (x y : bytes) (y2 : option bytes)      (* user x = Some y, user y = y2 *)
 | CHypOpaque (x y : bytes) (y2 : option bytes)
@@ -337,6 +572,19 @@ Inductive case :=
 
 Definition hyp_prec_ok (y : bytes) (y2 : option bytes) : bool :=
   (is_nil y || opt_eqb y2 (Some y)) && utf8_valid y.
+
+Fixpoint list_eqb {A} (eqb : A -> A -> bool) (a b : list A) : bool :=
+  match a, b with
+  | [], [] => true
+  | x :: a', y :: b' => eqb x y && list_eqb eqb a' b'
+  | _, _ => false
+  end.
+
+(* capacity policy used when a case file is evaluated (the theorems hold for every policy) *)
+Definition case_slack (n : nat) : nat := n.
+
+Definition hist_obs (st : hstate) : list pobs :=
+  map (fun p => obs_pair (view (st_heap st) (fst p), snd p)) (combine (st_regs st) (st_errs st)).
 
 Definition case_ok (c : case) : bool :=
   match c with
@@ -360,6 +608,11 @@ Definition case_ok (c : case) : bool :=
   | CUnsafe s o ostr =>
       let p := parse_unsafe s in
       pobs_eqb (obs_pair p) o && bytes_eqb (string_of (fst p)) ostr
+  | CHist t prog o =>
+      (* the heap-level run, and the value-level run, both against the observation *)
+      list_eqb pobs_eqb (hist_obs (h_run (ext_of t) case_slack st0 prog)) o
+      && (let '(vs, es) := v_run (ext_of t) ([], []) prog in
+          list_eqb pobs_eqb (map obs_pair (combine vs es)) o)
   | CHypUser x y y2 => hyp_prec_ok y y2
   | CHypOpaque x y y2 => hyp_prec_ok y y2
   | CHypIdna x y y2 => opt_eqb y2 (Some y) && utf8_valid y && nosep y
